@@ -1379,3 +1379,953 @@ def c11_family(rng, n):
                             {'family': 'c11-pype', 'ending': ending, 'mode': mode, 'raiseError': raise_error}))
     rng.shuffle(out)
     yield from out[:n]
+
+
+# --------------------------------------------------------------------------
+# Families for inputs the audit of 2026-10 found outside the generated range: names that are no group
+# names and `groups` that is no list (the two asserts of stepsrunner / dsl, the `for` of run_step_groups),
+# retry / while `max` of every sign and spelling, back-off constructors and callables that fail, negative
+# sleeps, an `in` that is no mapping, str(exception) per class, `runErrors` that is no list, decorator
+# expressions that do not format, foreach over strings / tuples / numbers, a pipeline that pypes itself.
+# Expectations: from the property texts where they speak (order, fail fast, handler once, original error,
+# exactly one entry, attempts, sleeps only between attempts); which exception class Python raises for a
+# malformed value is "model = implementation" (outcome class given as ANY, or by name when CPython fixes it).
+# --------------------------------------------------------------------------
+
+def _call(v, **kw):
+    return dict({'name': 'pypyr.steps.call', 'in': [['call', v]]}, **kw)
+
+
+def _jump(v, **kw):
+    return dict({'name': 'pypyr.steps.jump', 'in': [['jump', v]]}, **kw)
+
+
+def _pype(**cfg):
+    return {'name': 'pypyr.steps.pype', 'in': [['pype', D(**cfg)]]}
+
+
+def c01_names_family(rng, n):
+    """'' is no group name (`assert step_group_name`): requesting it is an error of the main phase like any
+    other - the groups before it ran, nothing after it runs, the failure group runs once, the caller gets the
+    AssertionError. A success / failure group named '' is "none given". `groups` as a string is iterated
+    character by character; a truthy number cannot be iterated: no group runs, TypeError, handler once."""
+    out = []
+    G = [['steps', [probe('S')]], ['a', [probe('GA')]], ['b', [probe('GB')]], ['hf', [probe('HF')]],
+         ['hs', [probe('HS')]], ['on_success', [probe('OS')]], ['on_failure', [probe('OF')]], ['', [probe('EMPTY')]]]
+    ran = {'steps': 'S', 'a': 'GA', 'b': 'GB'}
+    for groups in (['', 'a'], ['a', ''], ['a', '', 'b'], ['']):
+        for failure in (None, 'hf', ''):
+            run = {'groups': groups}
+            if failure is not None:
+                run['failure'] = failure
+            tags = []
+            for g in groups:
+                if g == '':
+                    break
+                tags.append(ran[g])
+            if failure == 'hf':
+                tags.append('HF')
+            out.append((prog_of(json.loads(json.dumps(G)), run=run, ctx={'k': 'v'}),
+                        {'tags': tags, 'outcome': ('err', 'AssertionError'), 'nerr': 0},
+                        {'family': 'c01-names', 'case': 'empty-name-requested', 'groups': groups, 'failure': failure}))
+    for succ, fail_, tags in (('', None, ['GA']), ('', 'hf', ['GA']), ('hs', '', ['GA', 'HS']), ('', '', ['GA'])):
+        run = {'groups': ['a'], 'success': succ}
+        if fail_ is not None:
+            run['failure'] = fail_
+        out.append((prog_of(json.loads(json.dumps(G)), run=run, ctx={'k': 'v'}), {'tags': tags, 'outcome': 'ok'},
+                    {'family': 'c01-names', 'case': 'empty-handler-name', 'success': succ, 'failure': fail_}))
+    # explicit '' handlers with no groups: both falsy -> the defaults steps / on_success / on_failure
+    out.append((prog_of(json.loads(json.dumps(G)), run={'success': '', 'failure': ''}, ctx={'k': 'v'}),
+                {'tags': ['S', 'OS'], 'outcome': 'ok'}, {'family': 'c01-names', 'case': 'empty-handlers-default'}))
+    for gv, tags, oc in (('ab', ['GA', 'GB'], 'ok'), ('ba', ['GB', 'GA'], 'ok'), ('a', ['GA'], 'ok'),
+                         ('', ['S', 'OS'], 'ok'), ([], ['S', 'OS'], 'ok'), (0, ['S', 'OS'], 'ok'),
+                         (False, ['S', 'OS'], 'ok'), (5, [], ('err', 'TypeError')), (True, [], ('err', 'TypeError'))):
+        for failure in (None, 'hf'):
+            run = {'groups': gv}
+            if failure:
+                run['failure'] = failure
+            t2, o2 = list(tags), oc
+            if gv in ('', [], 0, False) and failure:
+                t2 = ['S']                      # groups falsy, a failure group given: only `steps`, no on_success
+            if oc != 'ok' and failure:
+                t2 = t2 + ['HF']
+            out.append((prog_of(json.loads(json.dumps(G)), run=run, ctx={'k': 'v'}), {'tags': t2, 'outcome': o2},
+                        {'family': 'c01-names', 'case': 'groups-not-a-list', 'groups': json.dumps(gv),
+                         'failure': failure}))
+    # the same through jump / call / pype
+    for how in ('jump', 'call'):
+        for cfg, tags_in in (('', []), (['a', ''], ['GA']), (D(groups=['a', ''], failure='hf'), ['GA', 'HF']),
+                             (D(groups='', failure='hf'), None), ('{es}', []), (D(groups=['a'], success='', failure=''), ['GA'])):
+            st = _jump(cfg) if how == 'jump' else _call(cfg)
+            groups = [['steps', [probe('S'), st, probe('T')]]] + json.loads(json.dumps(G[1:]))
+            exp = {}
+            if tags_in is None:
+                exp = {'tags': ['S', 'OF'], 'outcome': ('err', 'pypyr.errors.KeyInContextHasNoValueError')}
+            elif cfg == D(groups=['a'], success='', failure=''):
+                exp = {'tags': ['S', 'GA'] + (['T'] if how == 'call' else []) + ['OS'], 'outcome': 'ok'}
+            else:
+                exp = {'tags': ['S'] + tags_in + ['OF'], 'outcome': ('err', 'AssertionError')}
+            out.append((prog_of(groups, ctx={'k': 'v', 'es': ''}), exp,
+                        {'family': 'c01-names', 'case': how + '-empty-name', 'cfg': json.dumps(cfg)}))
+    child = {'child': [['steps', [probe('C')]], ['a', [probe('CA')]], ['on_failure', [probe('COF')]],
+                       ['hf', [probe('CHF')]], ['on_success', [probe('COS')]]]}
+    for gv, ctags, oc in ((5, ['CHF'], 'TypeError'), (True, ['CHF'], 'TypeError'), ({'f': [3, 1]}, ['CHF'], 'TypeError'),
+                          (0, ['C'], None), ([], ['C'], None), ('', ['CHF'], 'AssertionError'),
+                          ('a', ['CA'], None), (['a', ''], ['CA', 'CHF'], 'AssertionError'),
+                          (D(a=1), ['CA'], None)):
+        groups = [['steps', [probe('A'), _pype(name='child', groups=gv, failure='hf'), probe('B')]],
+                  ['on_failure', [probe('OF')]]]
+        exp = {'tags': ['A'] + ctags + (['B'] if oc is None else ['OF']), 'outcome': 'ok' if oc is None else ('err', oc)}
+        out.append((prog_of(groups, children=json.loads(json.dumps(child)), ctx={'k': 'v'}), exp,
+                    {'family': 'c01-names', 'case': 'pype-groups', 'groups': json.dumps(gv)}))
+    # `assert context` of control_of_flow_instruction: call / jump on an EMPTY context (no dict_in at all)
+    for how in ('jump', 'call'):
+        st = {'name': 'pypyr.steps.' + how}
+        for sw in (False, True):
+            s2 = dict(st, swallow=True) if sw else dict(st)
+            groups = [['steps', [s2, probe('T')]], ['on_failure', [probe('OF')]]]
+            prog = prog_of(groups)
+            # swallowed: the run goes on with T (whose `in` makes the context non-empty)
+            exp = ({'outcome': 'ok', 'nerr': 1, 'tags': ['T']} if sw else
+                   {'outcome': ('err', 'AssertionError'), 'err_msg': 'context param must exist for ControlOfFlowStep.',
+                    'tags': ['OF'], 'nerr': 1})
+            out.append((prog, exp, {'family': 'c01-names', 'case': how + '-on-empty-context', 'swallow': sw}))
+    rng.shuffle(out)
+    out = cover_first(out, lambda c: c[2]['case'])
+    yield from out[:n]
+
+
+def c03_falsy_call_family(rng, n):
+    """`call: ''` / `call: []`: no group is ever entered; `reset_context_counters` (in the finally of invoke_step)
+    writes the loop counters back and then trips over `assert call.original_config[1]`. That AssertionError is
+    an error of the call step's own body: recorded exactly once per escape by the call step (C07), swallowed
+    by `swallow`, re-attempted by `retry`; the caller's loop counter is the caller's afterwards (C03)."""
+    out = []
+    for cfg in ('', []):
+        for deco in ('plain', 'swallow', 'foreach+swallow', 'while+swallow', 'retry', 'retry+swallow',
+                     'foreach+while+retry+swallow'):
+            st = _call(cfg)
+            iters, attempts = 1, 1
+            if 'swallow' in deco:
+                st['swallow'] = True
+            if 'foreach' in deco:
+                st['foreach'] = ['x', 'y']
+                iters *= 2
+            if 'while' in deco:
+                st['while'] = {'max': 2}
+                iters *= 2
+            if 'retry' in deco:
+                st['retry'] = {'max': 2, 'sleep': 1}
+                attempts = 2
+            groups = [['steps', [probe('A'), st, probe('B', keys=['i', 'whileCounter', 'retryCounter', 'call'])]],
+                      ['g1', [probe('G1')]], ['on_failure', [probe('OF')]]]
+            sw = 'swallow' in deco
+            nent = iters if sw else 1
+            entries = [{'name': 'AssertionError', 'description': '', 'step': 'pypyr.steps.call', 'swallowed': sw,
+                        'at': st} for _ in range(nent)]
+            # sleeps: retry sleeps 1 between its two attempts; while sleeps 0 between its two iterations
+            per_item = [1] * (attempts - 1)
+            per_while = per_item * (2 if 'foreach' in deco else 1)
+            sleeps = (per_while + [0] + per_while) if ('while' in deco and sw) else (per_while if sw else per_item)
+            exp = {'entries': entries, 'outcome': 'ok' if sw else ('err', 'AssertionError'),
+                   'tags': ['A'] + (['B'] if sw else ['OF']), 'sleeps': sleeps}
+            out.append((prog_of(groups, ctx={'k': 'v'}), exp,
+                        {'family': 'c03-falsy-call', 'cfg': json.dumps(cfg), 'decorators': deco}))
+    # expressions that format to '' / []: the raw configuration is truthy, so the assert holds; '' is no group
+    # name (AssertionError out of the called groups: already "handled", NOT recorded by the call step), [] is
+    # "no groups" (ValueError)
+    for cfg, err in (('{es}', 'AssertionError'), ('{empty}', 'ValueError'), (D(groups=['g1', '']), 'AssertionError')):
+        for sw in (False, True):
+            st = _call(cfg, swallow=True) if sw else _call(cfg)
+            groups = [['steps', [probe('A'), st, probe('B')]], ['g1', [probe('G1')]], ['on_failure', [probe('OF')]]]
+            inner = ['G1'] if isinstance(cfg, dict) else []
+            exp = {'tags': ['A'] + inner + (['B'] if sw else ['OF']), 'nerr': 0,
+                   'outcome': 'ok' if sw else ('err', err)}
+            out.append((prog_of(groups, ctx={'k': 'v', 'es': '', 'empty': []}), exp,
+                        {'family': 'c03-falsy-call', 'cfg': json.dumps(cfg), 'decorators': 'swallow' if sw else 'plain'}))
+    rng.shuffle(out)
+    out = cover_first(out, lambda c: c[2]['cfg'], lambda c: c[2]['decorators'])
+    for prog, exp, meta in out[:n]:
+        yield prog, exp, meta
+
+
+def _retry_oracle(mx_raw, ctx, fails, stop_on=None, retry_on=None):
+    """Attempts / outcome of a retry loop by the property text, extended by `max` as the code reads it:
+    falsy raw value = unbounded; else int(formatted): 0 = unbounded, negative = ONE attempt and, if that fails
+    retryably, the AssertionError of `assert is_retry_ok`. -> (attempt counters, outcome, nsleeps) or None when
+    the value does not convert (then: which exception is model = implementation, no attempt is made)."""
+    v = mx_raw
+    if isinstance(v, str) and v.startswith('{') and v.endswith('}'):
+        v = ctx[v[1:-1]]
+    if isinstance(v, dict) and 'f' in v:
+        v = v['f'][0] / (1 << v['f'][1])
+    if not mx_raw:
+        m = None
+    else:
+        try:
+            m = int(v)
+        except (ValueError, TypeError):
+            return None
+    attempts, k, nsleeps = [], 0, 0
+    while True:
+        k += 1
+        attempts.append(k)
+        err = fails[k - 1] if k - 1 < len(fails) else None
+        if err is None:
+            return attempts, 'ok', nsleeps
+        if m and k == m:
+            return attempts, ('err', err), nsleeps
+        if (stop_on and err in stop_on) or (retry_on and err not in retry_on):
+            return attempts, ('err', err), nsleeps
+        if m and not k < m:
+            return attempts, ('err', 'AssertionError'), nsleeps
+        nsleeps += 1
+
+
+def c06_max_family(rng, n):
+    out = []
+    E = 'ValueError'
+    ctx = {'neg': -1, 'two': 2, 'zero': 0, 'k': 'v'}
+    for mx in (None, 0, -1, -5, 1, 2, 3, '{neg}', '{two}', '{zero}', {'f': [5, 1]}, {'f': [-5, 1]}, '2', ' 3 ', '-3', '0',
+               True, False, '', 'x', [1], '2.5'):
+        for fails in ([E], [E, E], [E, E, E, E], [None], ['TypeError', None]):
+            for kind in ('fixed', 'jitter', 'linear'):
+                rt = {'sleep': 2, 'backoff': kind}
+                if mx is not None:
+                    rt['max'] = mx
+                if kind == 'jitter':
+                    rt['jrc'] = {'f': [1, 1]}
+                st = probe('R', fails=fails)
+                st['retry'] = rt
+                prog = prog_of([['steps', [st, probe('Z')]], ['on_failure', [probe('OF')]]], ctx=ctx)
+                prog['rnd'] = [[rng.randint(0, 4), 2] for _ in range(6)]
+                o = _retry_oracle(mx, ctx, fails)
+                if o is None:
+                    exp = {'tags': ['OF'], 'outcome': ('err', ANY), 'nerr': 1}
+                else:
+                    attempts, outcome, ns = o
+                    d = {'fixed': lambda k: (2, 2), 'jitter': lambda k: (1, 2), 'linear': lambda k: (2 * k, 2 * k)}[kind]
+                    exp = {'events': [('R', ANY, ANY, a) for a in attempts] +
+                           ([('Z', ANY, ANY, ANY)] if outcome == 'ok' else [('OF', ANY, ANY, ANY)]),
+                           'outcome': outcome, 'sleep_bounds': [d(k + 1) for k in range(ns)],
+                           'nerr': 0 if outcome == 'ok' else 1}
+                    if outcome != 'ok' and outcome[1] != 'AssertionError':
+                        exp['err_msg'] = 'boom R'
+                out.append((prog, exp, {'family': 'c06-max', 'max': json.dumps(mx), 'script': fails, 'kind': kind}))
+    rng.shuffle(out)
+    out = cover_first(out, lambda c: c[2]['max'], lambda c: c[2]['kind'])
+    yield from out[:n]
+
+
+def c06_fault_family(rng, n):
+    """Back-off constructors and callables that fail, names that do not resolve, negative durations, filters
+    given as a plain string. What is fixed by the property text: the number of attempts before the fault, no
+    sleep once it occurred, exactly one runErrors entry; the fault's class is CPython's."""
+    out = []
+    E = 'ValueError'
+    ctx = {'bname': 'linear', 'names': [E], 'sname': 'xValueErrorx', 'neg': -1, 'empty': [], 'two': 2}
+    rows = [
+        # (retry config, attempts when the body fails twice then succeeds, outcome class or None, sleeps)
+        ({'sleep': []}, 0, 'IndexError', []), ({'sleep': [], 'backoff': 'jitter'}, 0, 'IndexError', []),
+        ({'sleep': '{empty}'}, 0, 'IndexError', []),
+        ({'sleep': [], 'backoff': 'linear'}, 1, 'TypeError', []),
+        ({'sleep': [1, 2], 'backoff': 'linear'}, 1, 'TypeError', []),
+        ({'sleep': [1, 2], 'backoff': 'linear', 'sleepMax': 5}, 1, 'TypeError', []),
+        ({'sleep': [1, 2], 'backoff': 'linearjitter'}, 1, 'TypeError', []),
+        ({'sleep': [1, 2], 'backoff': 'exponential'}, 1, 'TypeError', []),
+        ({'sleep': [1], 'backoff': 'exponentialjitter', 'jrc': 1}, 1, 'TypeError', []),
+        ({'sleep': 1, 'backoff': 'exponential', 'backoffArgs': D(base='x')}, 1, 'TypeError', []),
+        ({'sleep': 1, 'backoff': 'exponential', 'backoffArgs': D(base=None)}, 1, 'TypeError', []),
+        ({'sleep': 1, 'backoff': 'exponential', 'backoffArgs': 'abc'}, 0, 'AttributeError', []),
+        ({'sleep': 1, 'backoff': 'exponentialjitter', 'backoffArgs': [1]}, 0, 'AttributeError', []),
+        ({'sleep': 1, 'backoff': 'exponential', 'backoffArgs': 0}, 3, None, [2, 4]),
+        ({'sleep': 1, 'backoff': 'exponential', 'backoffArgs': D()}, 3, None, [2, 4]),
+        ({'sleep': 1, 'backoff': 'exponential', 'backoffArgs': D(other=1)}, 3, None, [2, 4]),
+        ({'sleep': 1, 'backoff': 'exponential', 'backoffArgs': D(base='{two}')}, 3, None, [2, 4]),
+        ({'sleep': 1, 'backoff': 'linear', 'backoffArgs': 'abc'}, 3, None, [1, 2]),
+        ({'sleep': 1, 'backoff': 'fixed', 'backoffArgs': [1]}, 3, None, [1, 1]),
+        ({'sleep': -1}, 1, 'ValueError', []), ({'sleep': '{neg}', 'backoff': 'linear'}, 1, 'ValueError', []),
+        ({'sleep': [0, -1]}, 2, 'ValueError', [0]), ({'sleep': 1, 'backoff': 'jitter', 'jrc': -1}, 1, 'ValueError', []),
+        ({'sleep': 1, 'backoff': '{bname}'}, 3, None, [1, 2]), ({'sleep': 1, 'backoff': ''}, 3, None, [1, 1]),
+        ({'sleep': 1, 'backoff': 'nope'}, 0, 'ValueError', []), ({'sleep': 1, 'backoff': 'Fixed'}, 0, 'ValueError', []),
+        ({'sleep': 1, 'backoff': 'nomodule.X'}, 0, 'pypyr.errors.PyModuleNotFoundError', []),
+        ({'sleep': 1, 'backoff': 'nomodule.a.X'}, 0, 'pypyr.errors.PyModuleNotFoundError', []),
+        ({'sleep': 1, 'backoff': 'vprobe.Nope'}, 0, 'AttributeError', []),
+        ({'sleep': 1, 'backoff': 5}, 0, 'AttributeError', []), ({'sleep': 1, 'backoff': [1]}, 0, 'TypeError', []),
+        ({'sleep': 1, 'backoff': '{two}'}, 0, 'AttributeError', []),
+        # stopOn / retryOn as a plain string: `name in 'text'` is a substring test
+        ({'stopOn': 'ValueError'}, 1, E, []), ({'stopOn': 'xValueErrorx'}, 1, E, []), ({'stopOn': 'alue'}, 3, None, [0, 0]),
+        ({'stopOn': '{sname}'}, 1, E, []), ({'stopOn': '{names}'}, 1, E, []), ({'stopOn': 5}, 1, 'TypeError', []),
+        ({'retryOn': 'ValueError'}, 3, None, [0, 0]), ({'retryOn': 'xValueErrorx TypeError'}, 3, None, [0, 0]),
+        ({'retryOn': 'alue'}, 1, E, []), ({'retryOn': '{names}'}, 3, None, [0, 0]), ({'retryOn': 5}, 1, 'TypeError', []),
+        ({'stopOn': '', 'retryOn': []}, 3, None, [0, 0]),
+    ]
+    for rt, nattempts, err, sleeps in rows:
+        for sw in (False, True):
+            cfg = dict({'max': 4}, **json.loads(json.dumps(rt)))
+            st = probe('R', fails=[E, E])
+            st['retry'] = cfg
+            if sw:
+                st['swallow'] = True
+            prog = prog_of([['steps', [st, probe('Z')]], ['on_failure', [probe('OF')]]], ctx=ctx)
+            # scripted random.uniform: the upper end of [jrc*d, d]; for the negative jrc the lower end
+            prog['rnd'] = [[0, 2]] * 6 if cfg.get('jrc') == -1 else [[4, 2]] * 6
+            ok = err is None
+            exp = {'events': [('R', ANY, ANY, k + 1) for k in range(nattempts)] +
+                   [('Z', ANY, ANY, ANY)] if (ok or sw) else
+                   [('R', ANY, ANY, k + 1) for k in range(nattempts)] + [('OF', ANY, ANY, ANY)],
+                   'outcome': 'ok' if (ok or sw) else ('err', err), 'sleeps': sleeps, 'nerr': 0 if ok else 1}
+            if not ok:
+                exp['entries'] = [{'name': err, 'swallowed': sw, 'step': 'vprobe', 'at': st}]
+                del exp['nerr']
+            out.append((prog, exp, {'family': 'c06-fault', 'retry': json.dumps(rt), 'swallow': sw}))
+    rng.shuffle(out)
+    out = cover_first(out, lambda c: c[2]['retry'])
+    for prog, exp, meta in out[:n]:
+        yield prog, exp, meta
+
+
+def c05_edge_family(rng, n):
+    """while `max` in every spelling (not at all when max < 1), a negative sleep (time.sleep raises: outside
+    run/skip/swallow - never recorded, never swallowed), foreach over a string / tuple / mapping / number."""
+    out = []
+    ctx = {'neg': -1, 'zero': 0, 'two': 2, 'tup': {'t': [1, 'b']}, 'word': 'ab', 'n1': 1, 'k': 'v', 'empty': []}
+    for mx, iters in ((-1, 0), (0, 0), ('0', 0), ('-2', 0), ('{neg}', 0), ('{zero}', 0), (False, 0), ('2', 2), (' 3 ', 3),
+                      ({'f': [5, 1]}, 2), ({'f': [1, 1]}, 0), (True, 1), ('{two}', 2), ('x', None), ('', None), ([2], None),
+                      ('2.5', None)):
+        for eom in (False, True):
+            st = probe('W')
+            st['while'] = {'max': mx, 'sleep': 1}
+            if eom:
+                st['while']['errorOnMax'] = True
+            st['swallow'] = True
+            prog = prog_of([['steps', [st, probe('Z')]], ['on_failure', [probe('OF')]]], ctx=ctx)
+            if iters is None:
+                exp = {'tags': ['OF'], 'outcome': ('err', ANY), 'nerr': 0, 'sleeps': []}
+            elif eom and iters >= 1:
+                exp = {'events': [('W', ANY, k + 1, ANY) for k in range(iters)] + [('OF', ANY, ANY, ANY)], 'nerr': 0,
+                       'outcome': ('err', 'pypyr.errors.LoopMaxExhaustedError'), 'sleeps': [1] * (iters - 1)}
+            else:
+                exp = {'events': [('W', ANY, k + 1, ANY) for k in range(iters)] + [('Z', ANY, ANY, ANY)],
+                       'outcome': 'ok', 'sleeps': [1] * max(0, iters - 1), 'nerr': 0}
+            out.append((prog, exp, {'family': 'c05-edge', 'case': 'while-max', 'max': json.dumps(mx), 'errorOnMax': eom}))
+    for sl in (-1, {'f': [-1, 1]}, '{neg}'):
+        for mx, stop in ((1, None), (2, None), (3, None), (3, pycmp('whileCounter', '>=', 1))):
+            st = probe('W')
+            st['while'] = {'max': mx, 'sleep': sl}
+            if stop is not None:
+                st['while']['stop'] = stop
+            st['swallow'] = True
+            prog = prog_of([['steps', [st, probe('Z')]], ['on_failure', [probe('OF')]]], ctx=ctx)
+            if mx == 1 or stop is not None:
+                exp = {'tags': ['W', 'Z'], 'outcome': 'ok', 'sleeps': [], 'nerr': 0}      # no sleep is ever due
+            else:
+                exp = {'tags': ['W', 'OF'], 'outcome': ('err', 'ValueError'), 'err_msg': 'sleep length must be non-negative',
+                       'sleeps': [], 'nerr': 0}
+            out.append((prog, exp, {'family': 'c05-edge', 'case': 'while-negative-sleep', 'sleep': json.dumps(sl),
+                                    'max': mx, 'stop': stop is not None}))
+    for fe, items in (('ab', ['a', 'b']), ('{word}', ['a', 'b']), ('{tup}', [1, 'b']), (D(ka=1, kb=2), ['ka', 'kb']),
+                      ('{k}', ['v']), ('{empty}', []), (5, None), (True, None), ({'py': {'c': 3}}, None), ('{n1}', None),
+                      ({'f': [3, 1]}, None)):
+        st = probe('F')
+        st['foreach'] = fe
+        st['swallow'] = True
+        prog = prog_of([['steps', [st, probe('Z')]], ['on_failure', [probe('OF')]]], ctx=ctx)
+        if items is None:
+            exp = {'tags': ['OF'], 'outcome': ('err', 'TypeError'), 'nerr': 0}
+        else:
+            exp = {'events': [('F', x, ANY, ANY) for x in items] + [('Z', ANY, ANY, ANY)], 'outcome': 'ok', 'nerr': 0}
+        out.append((prog, exp, {'family': 'c05-edge', 'case': 'foreach-iterable', 'foreach': json.dumps(fe)}))
+    rng.shuffle(out)
+    out = cover_first(out, lambda c: c[2]['case'], lambda c: c[2].get('max'), lambda c: c[2].get('foreach'))
+    yield from out[:n]
+
+
+def c04_in_family(rng, n):
+    """`in` that is no mapping: set_step_input_context itself fails - before every decorator: the body does not
+    run, nothing is recorded, swallow / retry / run: false do not apply. ('' and {} are "no arguments".)
+    And decorator expressions that fail to format: run / skip outside the try, swallow inside its handler."""
+    out = []
+    decos = [{}, {'swallow': True}, {'retry': {'max': 3}}, {'run': False}, {'skip': True}, {'foreach': [1, 2], 'swallow': True},
+             {'while': {'max': 2}, 'swallow': True}, {'onError': 'x'}, {'description': 'text'}]
+    for bad, err in (('ab', 'ValueError'), ('x', 'ValueError'), (5, 'TypeError'), (0, 'TypeError'), (True, 'TypeError'),
+                     ({'f': [1, 1]}, 'TypeError'), ('', None)):
+        for dk in decos:
+            # the probe's configuration `p` comes from the initial context (the step's own `in` is the thing under test)
+            st = dict({'name': 'vprobe', 'in': {'bad': bad}}, **json.loads(json.dumps(dk)))
+            prog = prog_of([['steps', [st, probe('Z')]], ['on_failure', [probe('OF')]]],
+                           ctx={'p': P('X'), 'k': 'v'})
+            if err is None:
+                continue_ = not (dk.get('run') is False or dk.get('skip') is True)
+                reps = 2 if ('foreach' in dk or 'while' in dk) else 1
+                exp = {'tags': (['X'] * reps if continue_ else []) + ['Z'], 'outcome': 'ok', 'nerr': 0}
+            else:
+                exp = {'tags': ['OF'], 'outcome': ('err', err), 'nerr': 0, 'sleeps': []}
+            out.append((prog, exp, {'family': 'c04-in', 'case': 'in-not-a-mapping', 'in': json.dumps(bad),
+                                    'decorators': json.dumps(dk)}))
+    E = 'pypyr.errors.KeyNotInContextError'
+    for key in ('run', 'skip', 'swallow'):
+        for expr in ('{nokey}', pyname('nokey')):
+            for extra in ({}, {'foreach': [1, 2]}, {'retry': {'max': 2}}, {'while': {'max': 2}}):
+                fails = key == 'swallow'
+                st = probe('K', failRest='ValueError') if fails else probe('K')
+                st[key] = expr
+                st.update(json.loads(json.dumps(extra)))
+                prog = prog_of([['steps', [probe('A'), st, probe('Z')]], ['on_failure', [probe('OF')]]], ctx={'k': 'v'})
+                ename = E if isinstance(expr, str) else 'NameError'
+                ktags = (['K', 'K'] if 'retry' in extra else ['K']) if fails else []
+                exp = {'tags': ['A'] + ktags + ['OF'], 'outcome': ('err', ename), 'nerr': 0}
+                out.append((prog, exp, {'family': 'c04-in', 'case': key + '-does-not-format', 'expr': json.dumps(expr),
+                                        'extra': json.dumps(extra)}))
+    rng.shuffle(out)
+    out = cover_first(out, lambda c: c[2]['case'], lambda c: c[2].get('in'), lambda c: c[2].get('decorators'))
+    yield from out[:n]
+
+
+def c07_str_family(rng, n):
+    """`description` is str(exception): KeyError quotes its argument. `runErrors` that is there and no list:
+    save_error's append fails (AttributeError propagates - no entry, not swallowed). An onError that does
+    not format: its error propagates instead (no entry)."""
+    out = []
+    for cls, msg, desc in (('KeyError', 'first', "'first'"), ('KeyError', "it's", '"it\'s"'), ('KeyError', None, "'boom T'"),
+                           ('LookupError', 'first', 'first'), ('IndexError', 'first', 'first'), ('ValueError', "it's", "it's")):
+        for sw in (False, True):
+            kw = {'failRest': cls}
+            if msg is not None:
+                kw['msg'] = msg
+            st = probe('T', **kw)
+            if sw:
+                st['swallow'] = True
+            prog = prog_of([['steps', [probe('A'), st, probe('Z')]]], ctx={'k': 'v'})
+            exp = {'entries': [{'name': cls, 'description': desc, 'step': 'vprobe', 'swallowed': sw, 'at': st}],
+                   'outcome': 'ok' if sw else ('err', cls), 'tags': ['A', 'T'] + (['Z'] if sw else [])}
+            if not sw:
+                exp['err_msg'] = desc
+            out.append((prog, exp, {'family': 'c07-str', 'case': 'str-of-exception', 'cls': cls, 'msg': msg, 'swallow': sw}))
+    for pre in ('x', None, D(a=1), 5, {'f': [1, 1]}, True):
+        for sw in (False, True):
+            st = probe('T', failRest='ValueError')
+            if sw:
+                st['swallow'] = True
+            prog = prog_of([['steps', [probe('A'), st, probe('Z')]], ['on_failure', [probe('OF')]]],
+                           ctx={'k': 'v', 'runErrors': pre})
+            exp = {'tags': ['A', 'T', 'OF'], 'outcome': ('err', 'AttributeError'), 'ctx_has': {'runErrors': pre}}
+            out.append((prog, exp, {'family': 'c07-str', 'case': 'runErrors-no-list', 'pre': json.dumps(pre), 'swallow': sw}))
+    for pre in ([], [D(name='old')]):
+        st = probe('T', failRest='ValueError')
+        st['swallow'] = True
+        prog = prog_of([['steps', [probe('A'), st, probe('Z')]]], ctx={'k': 'v', 'runErrors': pre})
+        exp = {'tags': ['A', 'T', 'Z'], 'outcome': 'ok', 'nerr': len(pre) + 1}
+        out.append((prog, exp, {'family': 'c07-str', 'case': 'runErrors-a-list', 'pre': json.dumps(pre)}))
+    for oe, ename in (('{nokey}', 'pypyr.errors.KeyNotInContextError'), (D(a='{nokey}'), 'pypyr.errors.KeyNotInContextError'),
+                      (pyname('nokey'), 'NameError'), ([1, '{nokey}'], 'pypyr.errors.KeyNotInContextError')):
+        for sw in (False, True):
+            st = probe('T', failRest='ValueError')
+            st['onError'] = oe
+            if sw:
+                st['swallow'] = True
+            prog = prog_of([['steps', [probe('A'), st, probe('Z')]], ['on_failure', [probe('OF')]]], ctx={'k': 'v'})
+            exp = {'tags': ['A', 'T', 'OF'], 'outcome': ('err', ename), 'nerr': 0}
+            out.append((prog, exp, {'family': 'c07-str', 'case': 'onError-does-not-format', 'onError': json.dumps(oe),
+                                    'swallow': sw}))
+    rng.shuffle(out)
+    out = cover_first(out, lambda c: c[2]['case'], lambda c: c[2].get('cls'), lambda c: c[2].get('pre'))
+    for prog, exp, meta in out[:n]:
+        yield prog, exp, meta
+
+
+def c11_self_family(rng, n):
+    """A pipeline that pypes ITSELF, the depth counted in the context (shared, or handed down through args and
+    brought back through out): one level per pype until the bound; every level's steps before the pype step
+    run on the way down, those after it on the way up; the pipeline stack is balanced at every level."""
+    out = []
+    for bound in (1, 2, 3, 4):
+        for mode in ('shared', 'own', 'own+out'):
+            for ending in ('ok', 'stop', 'stoppipeline', 'error', 'error-swallowed'):
+                cfg = {'name': 'main'}
+                if mode != 'shared':
+                    cfg['args'] = D(depth='{depth}')
+                if mode == 'own+out':
+                    cfg['out'] = 'depth'
+                count = {'name': 'pypyr.steps.set',
+                         'in': [['set', D(depth={'py': {'op': '+', 'a': {'n': 'depth'}, 'b': {'c': 1}}})]]}
+                again = {'name': 'pypyr.steps.pype', 'in': [['pype', D(**cfg)]], 'skip': pycmp('depth', '>=', bound)}
+                if ending == 'error-swallowed':
+                    again['swallow'] = True
+                bottom = {'ok': probe('BOT', run=None), 'stop': 'pypyr.steps.stop', 'stoppipeline': 'pypyr.steps.stoppipeline',
+                          'error': probe('BOT', failRest='ValueError'), 'error-swallowed': probe('BOT', failRest='ValueError')}[ending]
+                if isinstance(bottom, dict):
+                    bottom.pop('run', None)
+                    bottom['run'] = pycmp('depth', '>=', bound)
+                else:
+                    bottom = {'name': bottom, 'run': pycmp('depth', '>=', bound)}
+                steps = [count, probe('DOWN', keys=['depth']), again, bottom, probe('UP', keys=['depth'])]
+                prog = prog_of([['steps', steps]], ctx={'depth': 0, 'k': 'v'})
+                down = ['DOWN'] * bound
+                # `seen`: the depth a level sees after its pype step returned - the innermost one's (shared context,
+                # or brought back through `out` when the child ended normally), else its own
+                shared_up = mode in ('shared', 'own+out')
+                if ending == 'ok':
+                    tags = down + (['BOT', 'UP'] * bound if shared_up else ['BOT'] + ['UP'] * bound)
+                    oc = 'ok'
+                elif ending == 'stop':
+                    tags, oc = down, 'ok'
+                elif ending == 'stoppipeline':
+                    # every level that sees depth >= bound ends itself the same way
+                    tags, oc = (down if shared_up else down + ['UP'] * (bound - 1)), 'ok'
+                elif ending == 'error':
+                    tags, oc = down + ['BOT'], ('err', 'ValueError')
+                else:
+                    # the pype step swallows the child's error and the level carries on; `out` is not written
+                    # for a failed child; in the shared context every level then fails at its own BOT
+                    if mode == 'shared':
+                        tags, oc = down + ['BOT'] * bound, ('err', 'ValueError')
+                    else:
+                        tags = down + ['BOT'] + ['UP'] * (bound - 1)
+                        oc = ('err', 'ValueError') if bound == 1 else 'ok'
+                exp = {'tags': tags, 'outcome': oc}
+                if ending == 'ok':
+                    exp['ctx_has'] = {'depth': bound if shared_up else 1}
+                out.append((prog, exp, {'family': 'c11-self', 'bound': bound, 'mode': mode, 'ending': ending}))
+    rng.shuffle(out)
+    out = cover_first(out, lambda c: c[2]['mode'], lambda c: c[2]['ending'], lambda c: c[2]['bound'])
+    yield from out[:n]
+
+
+def c03_counter_names_family(rng, n):
+    """Group names given through expressions that depend on the caller's own loop counters: `call: 'g{i}'` under
+    foreach, `'g{whileCounter}'` under while, `'g{retryCounter}'` under retry, `{'groups': ['g{i}', 'h']}`, a switch
+    whose case calls `'g{i}'`. Each iteration calls the group its counter names; the called group overwrites all
+    three counters and deletes the caller's configuration; after every return the counters are the caller's
+    again, the raw configuration (the unformatted string) is back."""
+    out = []
+    clobber = D(i='X', whileCounter=99, retryCounter=77)
+    for loop in ('foreach', 'while', 'retry', 'foreach+while'):
+        for how in ('call-str', 'call-dict', 'switch'):
+            for sw in (False, True):
+                key = {'foreach': 'i', 'while': 'whileCounter', 'retry': 'retryCounter', 'foreach+while': 'i'}[loop]
+                expr = 'g{' + key + '}'
+                if how == 'call-str':
+                    st = _call(expr)
+                    cfgkey = 'call'
+                elif how == 'call-dict':
+                    st = _call(D(groups=[expr, 'h']))
+                    cfgkey = 'call'
+                else:
+                    st = {'name': 'pypyr.steps.switch',
+                          'in': [['switch', [D(case=False, call='nogroup'), D(case=True, call=expr)]]]}
+                    cfgkey = 'switch'
+                visits = []          # (group tag, i, w, r) in order
+                if loop == 'foreach':
+                    st['foreach'] = [1, 2]
+                    visits = [(1, 1, ANY, ANY), (2, 2, ANY, ANY)]
+                elif loop == 'while':
+                    st['while'] = {'max': 2}
+                    visits = [(1, ANY, 1, ANY), (2, ANY, 2, ANY)]
+                elif loop == 'retry':
+                    # the called group g1 fails (so attempt 2 calls g2, which succeeds)
+                    st['retry'] = {'max': 3}
+                    visits = [(1, ANY, ANY, 1), (2, ANY, ANY, 2)]
+                else:
+                    st['foreach'] = [1, 2]
+                    st['while'] = {'max': 2}
+                    visits = [(1, 1, 1, ANY), (2, 2, 1, ANY), (1, 1, 2, ANY), (2, 2, 2, ANY)]
+                if sw:
+                    st['swallow'] = True
+                g1 = [probe('G1', set=clobber, **{'del': [cfgkey]})]
+                if loop == 'retry':
+                    g1.append(probe('G1F', failRest='ValueError'))
+                groups = [['steps', [st, probe('AFTER', keys=[cfgkey])]], ['g1', g1],
+                          ['g2', [probe('G2', set=clobber, **{'del': [cfgkey]})]], ['h', [probe('H')]],
+                          ['nogroup', [probe('WRONG')]]]
+                events = []
+                for (g, i, w, r) in visits:
+                    events.append((f'G{g}', i, w, r))
+                    if loop == 'retry' and g == 1:
+                        events.append(('G1F', ANY, ANY, ANY))
+                    elif how == 'call-dict':
+                        events.append(('H', ANY, ANY, ANY))
+                last = visits[-1]
+                events.append(('AFTER', last[1], last[2], last[3]))
+                exp = {'events': events, 'outcome': 'ok', 'nerr': 1 if loop == 'retry' else 0}
+                out.append((prog_of(groups, ctx={'k': 'v'}), exp,
+                            {'family': 'c03-counter-names', 'loop': loop, 'how': how, 'swallow': sw}))
+    rng.shuffle(out)
+    out = cover_first(out, lambda c: c[2]['loop'], lambda c: c[2]['how'])
+    yield from out[:n]
+
+
+def c02_parser_handler_family(rng, n):
+    """The failure handler that runs because the pipeline's CONTEXT PARSER failed is a step-group like any other:
+    `call` / `switch` run their groups and hand control back to the calling step, `jump` moves on and does not
+    come back, none of them is an error (no runErrors entry of the handler's making, nothing for the handler's
+    swallow-everything to swallow). Root pipeline (`args_in`), child on the shared context, child on its own."""
+    out = []
+    hows = ('call', 'switch', 'call-dict', 'call-nested', 'jump', 'call-foreach')
+    for where in ('root', 'child_shared', 'child_own'):
+        for how in hows:
+            if how == 'jump':
+                instr, per = _jump('cleanup'), ['F1', 'CL']
+            elif how == 'switch':
+                instr, per = c03_caller('switch', 'cleanup'), ['F1', 'CL', 'F2']
+            elif how == 'call-dict':
+                instr, per = _call(D(groups=['cleanup', 'cleanup2'], success='cs')), ['F1', 'CL', 'CL2', 'CS', 'F2']
+            elif how == 'call-nested':
+                instr, per = _call('nest'), ['F1', 'N1', 'CL', 'N2', 'F2']
+            elif how == 'call-foreach':
+                instr, per = _call('cleanup', foreach=['x', 'y']), ['F1', 'CL', 'CL', 'F2']
+            else:
+                instr, per = _call('cleanup'), ['F1', 'CL', 'F2']
+            hgroups = [['steps', [probe('S')]], ['on_success', [probe('OS')]],
+                       ['on_failure', [probe('F1'), instr, probe('F2')]],
+                       ['cleanup', [probe('CL')]], ['cleanup2', [probe('CL2')]], ['cs', [probe('CS')]],
+                       ['nest', [probe('N1'), _call('cleanup'), probe('N2')]], ['nogroup', [probe('WRONG')]]]
+            if where == 'root':
+                prog = prog_of(hgroups, run={'args_in': ['FAIL']}, ctx={'k': 'v'})
+                prog['pipes'][0]['parser'] = 'vparser'
+                exp = {'tags': per, 'outcome': ('err', 'ValueError'), 'nerr': 0}
+            else:
+                cfg = dict(name='child', pipeArg='FAIL')
+                if where == 'child_own':
+                    cfg['useParentContext'] = False
+                groups = [['steps', [probe('A'), _pype(**cfg), probe('B')]], ['on_success', [probe('POS')]],
+                          ['on_failure', [probe('OF')]]]
+                prog = prog_of(groups, children={'child': {'parser': 'vparser', 'groups': hgroups}}, ctx={'k': 'v'})
+                # the parse error leaves the child, is recorded once by the parent's pype step
+                exp = {'tags': ['A'] + per + ['OF'], 'outcome': ('err', 'ValueError'), 'nerr': 1}
+            out.append((prog, exp, {'family': 'c02-parser-handler', 'where': where, 'how': how}))
+    rng.shuffle(out)
+    out = cover_first(out, lambda c: c[2]['how'], lambda c: c[2]['where'])
+    yield from out[:n]
+
+
+# --------------------------------------------------------------------------
+# unusual VALUES in ordinary places (each family: expectation from the property text)
+# --------------------------------------------------------------------------
+
+UNUSUAL_ERRORS = ['vprobe.FalsyError', 'built.BuiltError', 'main.MainError']
+
+
+def c01_error_values_family(rng, n):
+    """An error is an error whatever its class: an exception OBJECT that is falsy (it has a length, like an
+    aggregate error without sub-errors), a class from a top-level module whose name is a fragment of
+    'builtins' / '__main__' (named `module.Class` all the same). Raised directly, inside called groups
+    (call / switch, nested), under retry / swallow on the calling step, in a child pipeline, in the handler."""
+    out = []
+    for err in UNUSUAL_ERRORS + ['ValueError']:
+        X = probe('X', failRest=err)
+        ent = {'name': err, 'description': 'boom X', 'step': 'vprobe'}
+        for place in ('direct', 'direct-swallow', 'call', 'switch', 'call-nested', 'call-swallow', 'call-retry',
+                      'call-foreach-swallow', 'pype', 'pype-swallow', 'handler'):
+            oc, children, nerr, entries = ('err', err), None, None, None
+            if place == 'direct':
+                groups = [['steps', [probe('A'), X, probe('B')]], ['on_failure', [probe('OF')]]]
+                tags, entries = ['A', 'X', 'OF'], [dict(ent, swallowed=False)]
+            elif place == 'direct-swallow':
+                groups = [['steps', [probe('A'), dict(X, swallow=True), probe('B')]], ['on_failure', [probe('OF')]]]
+                tags, oc, entries = ['A', 'X', 'B'], 'ok', [dict(ent, swallowed=True)]
+            elif place in ('call', 'switch'):
+                groups = [['steps', [probe('A'), c03_caller(place, 'g1'), probe('B')]], ['g1', [probe('G'), X, probe('H')]],
+                          ['on_failure', [probe('OF')]], ['nogroup', [probe('WRONG')]]]
+                tags, entries = ['A', 'G', 'X', 'OF'], [dict(ent, swallowed=False)]
+            elif place == 'call-nested':
+                groups = [['steps', [probe('A'), _call('g0'), probe('B')]], ['g0', [probe('G0'), _call('g1'), probe('H0')]],
+                          ['g1', [probe('G'), X, probe('H')]], ['on_failure', [probe('OF')]]]
+                tags, entries = ['A', 'G0', 'G', 'X', 'OF'], [dict(ent, swallowed=False)]
+            elif place == 'call-swallow':
+                groups = [['steps', [probe('A'), _call('g1', swallow=True), probe('B')]], ['g1', [probe('G'), X, probe('H')]],
+                          ['on_failure', [probe('OF')]]]
+                tags, oc, entries = ['A', 'G', 'X', 'B'], 'ok', [dict(ent, swallowed=False)]
+            elif place == 'call-retry':
+                groups = [['steps', [probe('A'), _call('g1', retry={'max': 2}), probe('B')]], ['g1', [probe('G'), X, probe('H')]],
+                          ['on_failure', [probe('OF')]]]
+                tags, nerr = ['A', 'G', 'X', 'G', 'X', 'OF'], 2
+            elif place == 'call-foreach-swallow':
+                groups = [['steps', [probe('A'), _call('g1', swallow=True, foreach=['x', 'y']), probe('B')]],
+                          ['g1', [probe('G'), X, probe('H')]], ['on_failure', [probe('OF')]]]
+                tags, oc, nerr = ['A', 'G', 'X', 'G', 'X', 'B'], 'ok', 2
+            elif place in ('pype', 'pype-swallow'):
+                st = _pype(name='child')
+                if place == 'pype-swallow':
+                    st['swallow'] = True
+                groups = [['steps', [probe('A'), st, probe('B')]], ['on_failure', [probe('OF')]]]
+                children = {'child': [['steps', [probe('C'), X, probe('D')]], ['on_failure', [probe('COF')]]]}
+                tags = ['A', 'C', 'X', 'COF'] + (['B'] if place == 'pype-swallow' else ['OF'])
+                oc = 'ok' if place == 'pype-swallow' else ('err', err)
+            else:
+                groups = [['steps', [probe('A'), probe('F', failRest='RuntimeError'), probe('B')]],
+                          ['on_failure', [probe('OF'), X, probe('OF2')]]]
+                tags, oc, nerr = ['A', 'F', 'OF', 'X'], ('err', 'RuntimeError'), 2
+            exp = {'tags': tags, 'outcome': oc}
+            if oc != 'ok' and place != 'handler':
+                exp['err_msg'] = 'boom X'
+            if nerr is not None:
+                exp['nerr'] = nerr
+            if entries is not None:
+                exp['entries'] = entries
+            out.append((prog_of(groups, children=children, ctx={'k': 'v'}), exp,
+                        {'family': 'c01-error-values', 'error': err, 'place': place}))
+    rng.shuffle(out)
+    out = cover_first(out, lambda c: c[2]['place'], lambda c: c[2]['error'])
+    yield from out[:n]
+
+
+def c03_switch_lazy_family(rng, n):
+    """switch: only the FIRST TRUE case is an instruction. The `call` of a case that is false (or comes after the
+    one taken) is never looked at: an expression in it that cannot be resolved raises nothing, names no group."""
+    out = []
+    bad_calls = ['{nokey}', pyname('nokey'), D(groups='{nokey}'), D(groups=['sx'], success='{nokey}'), ['{nokey}'],
+                 'x{nokey}y']
+    for bad in bad_calls:
+        for shape in ('false-before-true', 'false-before-default', 'true-before-bad', 'two-false-before-true',
+                      'bad-is-taken', 'bad-default-not-reached'):
+            oc, nerr = 'ok', 0
+            if shape == 'false-before-true':
+                sw, mid = [D(case=False, call=bad), D(case=True, call='s1')], ['S1']
+            elif shape == 'false-before-default':
+                sw, mid = [D(case='{f1}', call=bad), D(default='sd')], ['SD']
+            elif shape == 'true-before-bad':
+                sw, mid = [D(case=True, call='s1'), D(case=True, call=bad), D(default=bad)], ['S1']
+            elif shape == 'two-false-before-true':
+                sw, mid = [D(case=0, call=bad), D(case=pyname('f1'), call=bad), D(case='{t1}', call=['s1', 's2'])], ['S1', 'S2']
+            elif shape == 'bad-default-not-reached':
+                sw, mid = [D(case=False, call='s2'), D(case=True, call='s1'), D(default=bad)], ['S1']
+            else:
+                sw, mid = [D(case=False, call='s1'), D(case=True, call=bad)], None
+            groups = [['steps', [probe('A'), {'name': 'pypyr.steps.switch', 'in': [['switch', sw]]}, probe('B')]],
+                      ['s1', [probe('S1')]], ['s2', [probe('S2')]], ['sd', [probe('SD')]], ['sx', [probe('SX')]],
+                      ['on_failure', [probe('OF')]]]
+            if mid is None:
+                # the case taken: now the expression IS the instruction - whatever error formatting it gives
+                exp = {'outcome': ('err', ANY)}
+            else:
+                exp = {'tags': ['A'] + mid + ['B'], 'outcome': 'ok', 'nerr': 0}
+            out.append((prog_of(groups, ctx={'t1': True, 'f1': False, 'k': 'v'}), exp,
+                        {'family': 'c03-switch-lazy', 'shape': shape, 'call': json.dumps(bad)}))
+    rng.shuffle(out)
+    out = cover_first(out, lambda c: c[2]['shape'], lambda c: c[2]['call'])
+    yield from out[:n]
+
+
+def c03_recursive_family(rng, n):
+    """A calling step that is RE-ENTERED while an activation of it is in mid-loop: the called group leads back to
+    the group the calling step is in (tree walk; the depth is counted up on entry and down on exit, the call is
+    skipped at the bound). Every activation has its own counters: after a call returns, `i` / `whileCounter` /
+    `retryCounter` are those of the activation that issued it - seen by the next entry of the called group
+    (probe R, first step of the recursive group) and by the step after the calling step (AFTER)."""
+    out = []
+    up = {'name': 'pypyr.steps.set', 'in': [['set', D(depth={'py': {'op': '+', 'a': {'n': 'depth'}, 'b': {'c': 1}}})]]}
+    down = {'name': 'pypyr.steps.set', 'in': [['set', D(depth={'py': {'op': '-', 'a': {'n': 'depth'}, 'b': {'c': 1}}})]]}
+    for bound in (2, 3):
+        for items in (None, ['a', 'b'], [None, 0], ['x']):
+            for wmax in (None, 2):
+                for caller in ('call', 'switch'):
+                    for via in ('direct', 'hop'):
+                        if items is None and wmax is None:
+                            continue
+                        cs = c03_caller(caller, 'rec' if via == 'direct' else 'hop')
+                        cs['skip'] = pycmp('depth', '>=', bound)
+                        if items is not None:
+                            cs['foreach'] = items
+                        if wmax is not None:
+                            cs['while'] = {'max': wmax}
+                        groups = [['steps', [_call('rec'), probe('END')]],
+                                  ['rec', [up, probe('R', keys=['depth']), cs, probe('AFTER', keys=['depth']), down]],
+                                  ['hop', [_call('rec')]], ['nogroup', [probe('WRONG')]]]
+                        ev = []
+                        st = {'i': MISSING, 'w': MISSING, 'depth': 0}
+
+                        def rec():
+                            st['depth'] += 1
+                            ev.append(('R', st['i'], st['w'], ANY))
+                            for w in (range(1, wmax + 1) if wmax is not None else [None]):
+                                if w is not None:
+                                    st['w'] = w
+                                for x in (items if items is not None else [ANY]):
+                                    if items is not None:
+                                        st['i'] = x
+                                    if st['depth'] >= bound:
+                                        continue
+                                    mine = (st['i'], st['w'])
+                                    rec()
+                                    st['i'], st['w'] = mine       # the property: the caller's counters are back
+                            ev.append(('AFTER', st['i'], st['w'], ANY))
+                            st['depth'] -= 1
+                        rec()
+                        ev.append(('END', ANY, ANY, ANY))
+                        if len(ev) > 400:
+                            continue
+                        exp = {'events': ev, 'outcome': 'ok', 'nerr': 0}
+                        out.append((prog_of(groups, ctx={'depth': 0, 'k': 'v'}), exp,
+                                    {'family': 'c03-recursive', 'bound': bound, 'items': json.dumps(items), 'while': wmax,
+                                     'caller': caller, 'via': via}))
+    rng.shuffle(out)
+    out = cover_first(out, lambda c: (c[2]['items'], c[2]['while']), lambda c: (c[2]['caller'], c[2]['via'], c[2]['bound']))
+    yield from out[:n]
+
+
+TEXT_TRUE = ['true', 'True', 'TRUE', '1', '1.0', 'tRuE']
+TEXT_FALSE = ['false', 'False', '0', 'no', 'yes', 'x', ' true', 'true ', '0.0', 'None', '2']
+
+
+def c05_text_family(rng, n):
+    """Decorator expressions that resolve to TEXT (cli key=value arguments, environment, command output): the
+    truth rule for text applies - 'true' / '1' / '1.0' in any case are true, EVERY other text is false - to the
+    while `stop` and `errorOnMax` exactly as to run / skip / swallow (C04)."""
+    out = []
+    for txt in TEXT_TRUE + TEXT_FALSE:
+        truth = txt in TEXT_TRUE
+        for how in ('key', 'literal', 'composite'):
+            if how == 'key':
+                expr, ctx = '{txt}', {'txt': txt}
+            elif how == 'literal':
+                expr, ctx = txt, {}
+            else:
+                if len(txt) < 2:
+                    continue
+                expr, ctx = '{h}' + txt[1:], {'h': txt[0]}
+            ctx['k'] = 'v'
+            # stop: the loop ends after the first iteration iff the text is true, else runs to max
+            st = probe('W')
+            st['while'] = {'stop': expr, 'max': 3}
+            iters = 1 if truth else 3
+            out.append((prog_of([['steps', [st, probe('Z')]], ['on_failure', [probe('OF')]]], ctx=ctx),
+                        {'events': [('W', ANY, k + 1, ANY) for k in range(iters)] + [('Z', ANY, ANY, ANY)],
+                         'outcome': 'ok', 'nerr': 0},
+                        {'family': 'c05-text', 'where': 'stop', 'text': txt, 'how': how}))
+            # ... also under foreach: every while round runs the whole sequence
+            st = probe('W')
+            st['while'] = {'stop': expr, 'max': 2}
+            st['foreach'] = ['a', 'b']
+            iters = 1 if truth else 2
+            out.append((prog_of([['steps', [st, probe('Z')]], ['on_failure', [probe('OF')]]], ctx=ctx),
+                        {'events': [('W', x, k + 1, ANY) for k in range(iters) for x in ('a', 'b')] + [('Z', ANY, ANY, ANY)],
+                         'outcome': 'ok', 'nerr': 0},
+                        {'family': 'c05-text', 'where': 'stop+foreach', 'text': txt, 'how': how}))
+            # errorOnMax: exhausting max is an error iff the text is true
+            st = probe('W')
+            st['while'] = {'max': 2, 'errorOnMax': expr}
+            if truth:
+                exp = {'tags': ['W', 'W', 'OF'], 'outcome': ('err', 'pypyr.errors.LoopMaxExhaustedError')}
+            else:
+                exp = {'tags': ['W', 'W', 'Z'], 'outcome': 'ok', 'nerr': 0}
+            out.append((prog_of([['steps', [st, probe('Z')]], ['on_failure', [probe('OF')]]], ctx=ctx), exp,
+                        {'family': 'c05-text', 'where': 'errorOnMax', 'text': txt, 'how': how}))
+            # stop together with errorOnMax true: a false text never stops, so max is exhausted -> error
+            st = probe('W')
+            st['while'] = {'stop': expr, 'max': 2, 'errorOnMax': True}
+            if truth:
+                exp = {'tags': ['W', 'Z'], 'outcome': 'ok', 'nerr': 0}
+            else:
+                exp = {'tags': ['W', 'W', 'OF'], 'outcome': ('err', 'pypyr.errors.LoopMaxExhaustedError')}
+            out.append((prog_of([['steps', [st, probe('Z')]], ['on_failure', [probe('OF')]]], ctx=ctx), exp,
+                        {'family': 'c05-text', 'where': 'stop+errorOnMax', 'text': txt, 'how': how}))
+    rng.shuffle(out)
+    out = cover_first(out, lambda c: c[2]['where'], lambda c: c[2]['text'], lambda c: c[2]['how'])
+    yield from out[:n]
+
+
+def c06_text_family(rng, n):
+    """Numbers that arrive as TEXT (cli arguments, environment): `max` is int(text), `sleepMax` is float(text) -
+    each exactly as if the number had been written (the cap applies under every strategy)."""
+    out = []
+    E = 'ValueError'
+
+    def case(rt, sleeps, meta, ctx=None, rnd=None, bounds=None):
+        st = probe('R', fails=[E, E, E])
+        st['retry'] = rt
+        prog = prog_of([['steps', [st, probe('Z')]], ['on_failure', [probe('OF')]]], ctx=dict({'k': 'v'}, **(ctx or {})))
+        if rnd is not None:
+            prog['rnd'] = rnd
+        exp = {'tags': ['R', 'R', 'R', 'R', 'Z'], 'outcome': 'ok', 'nerr': 0}
+        if bounds is not None:
+            exp['sleep_bounds'] = bounds
+        else:
+            exp['sleeps'] = sleeps
+        out.append((prog, exp, dict({'family': 'c06-text'}, **meta)))
+
+    for how in ('literal', 'key'):
+        def v(text, key):
+            return text if how == 'literal' else '{' + key + '}'
+        ctx = {'cap': '5', 'capf': '7.5', 'capsp': ' 4 ', 'mx': '4'}
+        # sleepMax as text caps every strategy
+        case({'max': 4, 'sleep': 4, 'backoff': 'linear', 'sleepMax': v('5', 'cap')}, [4, 5, 5],
+             {'what': 'sleepMax', 'backoff': 'linear', 'how': how}, ctx)
+        case({'max': 4, 'sleep': 1, 'backoff': 'exponential', 'sleepMax': v('7.5', 'capf')}, [2, 4, 7.5],
+             {'what': 'sleepMax', 'backoff': 'exponential', 'how': how}, ctx)
+        case({'max': 4, 'sleep': 9, 'sleepMax': v('5', 'cap')}, [5, 5, 5], {'what': 'sleepMax', 'backoff': 'fixed', 'how': how}, ctx)
+        case({'max': 4, 'sleep': [9, 1, 9], 'sleepMax': v('7.5', 'capf')}, [7.5, 1, 7.5],
+             {'what': 'sleepMax', 'backoff': 'fixed-list', 'how': how}, ctx)
+        case({'max': 4, 'sleep': 8, 'backoff': 'jitter', 'sleepMax': v('5', 'cap')}, None,
+             {'what': 'sleepMax', 'backoff': 'jitter', 'how': how}, ctx, bounds=[(0, 5)] * 3)
+        case({'max': 4, 'sleep': 3, 'backoff': 'linearjitter', 'sleepMax': v(' 4 ', 'capsp')}, None,
+             {'what': 'sleepMax', 'backoff': 'linearjitter', 'how': how}, ctx, bounds=[(0, 4)] * 3)
+        # max as text
+        case({'max': v('4', 'mx'), 'sleep': 1}, [1, 1, 1], {'what': 'max', 'how': how}, ctx)
+    rng.shuffle(out)
+    out = cover_first(out, lambda c: (c[2]['what'], c[2].get('backoff')), lambda c: c[2]['how'])
+    yield from out[:n]
+
+
+def c11_out_container_family(rng, n):
+    """pype `out`: what the parent receives is the child's value FORMATTED IN THE CHILD's context - also when the
+    value is a list / mapping / nested container holding {expressions} (content loaded from a file, !sic text,
+    escaped {{..}} arguments): the expressions are resolved where the child's values live, the parent gets
+    plain values of its own, not templates to be resolved later against the parent's keys."""
+    out = []
+    # the child has its own context: who = 'child', only = 'c-only'; the parent's who = 'parent'
+    vals = {
+        'list': (['{who}', 'lit', '{only}'], ['child', 'lit', 'c-only']),
+        'dict': (D(a='{who}', b=D(c='x{only}y')), D(a='child', b=D(c='xc-onlyy'))),
+        'nested': ([D(a=['{who}', 1]), ['{only}']], [D(a=['child', 1]), ['c-only']]),
+        'str': ('{who}/{only}', 'child/c-only'),
+        'dictkey': (D(**{'{who}': 1}), D(child=1)),
+        'plain': ([1, 'two', None], [1, 'two', None]),
+    }
+    for vname, (raw, want) in vals.items():
+        for form in ('str', 'list', 'mapping'):
+            for after in ('read', 'format'):
+                outcfg = {'str': 'res', 'list': ['res'], 'mapping': D(pres='res')}[form]
+                pkey = 'pres' if form == 'mapping' else 'res'
+                child = [['steps', [probe('C', set=D(res=raw, who='child', only='c-only'))]]]
+                # the parent looks at what it received: raw (keys) and through a formatting expression of its own
+                reader = probe('B', keys=[pkey]) if after == 'read' else probe('B', set=D(got='{' + pkey + '}'), keys=[pkey])
+                groups = [['steps', [probe('A'), _pype(name='child', args=D(seed=1), out=outcfg), reader]],
+                          ['on_failure', [probe('OF')]]]
+                exp = {'tags': ['A', 'C', 'B'], 'outcome': 'ok', 'nerr': 0, 'ctx_has': {pkey: want, 'who': 'parent'}}
+                out.append((prog_of(groups, children={'child': child}, ctx={'who': 'parent', 'k': 'v'}), exp,
+                            {'family': 'c11-out-container', 'value': vname, 'out': form, 'after': after}))
+    rng.shuffle(out)
+    out = cover_first(out, lambda c: c[2]['value'], lambda c: c[2]['out'])
+    yield from out[:n]
+
+
+def c06_default_backoff_family(rng, n):
+    """A retry without `backoff` uses the default strategy AS CONFIGURED WHEN THE LOOP STARTS
+    (`config.default_backoff`: set by a config file / the API after pypyr's modules were loaded); a step that
+    names its `backoff` is not affected by the default; an unknown default is the error of an unknown name."""
+    out = []
+    E = 'ValueError'
+    closed = {'fixed': [3, 3, 3], 'linear': [3, 6, 9], 'exponential': [6, 12, 24]}
+    for default in ('linear', 'exponential', 'fixed', 'jitter', 'linearjitter', 'exponentialjitter', 'nope'):
+        for given in (None, 'fixed', 'linear', '', '{bname}'):
+            st = probe('R', fails=[E, E, E])
+            st['retry'] = {'max': 4, 'sleep': 3}
+            if given is not None:
+                st['retry']['backoff'] = given
+            eff = default if given in (None, '') else ('linear' if given == '{bname}' else given)
+            prog = prog_of([['steps', [st, probe('Z')]], ['on_failure', [probe('OF')]]], ctx={'k': 'v', 'bname': 'linear'},
+                           run={'default_backoff': default})
+            if eff == 'nope':
+                exp = {'tags': ['OF'], 'outcome': ('err', 'ValueError'), 'sleeps': []}
+            else:
+                exp = {'tags': ['R', 'R', 'R', 'R', 'Z'], 'outcome': 'ok', 'nerr': 0}
+                if eff in closed:
+                    exp['sleeps'] = closed[eff]
+                else:
+                    hi = {'jitter': [3, 3, 3], 'linearjitter': [3, 6, 9], 'exponentialjitter': [6, 12, 24]}[eff]
+                    exp['sleep_bounds'] = [(0, h) for h in hi]
+            out.append((prog, exp, {'family': 'c06-default-backoff', 'default': default, 'given': json.dumps(given)}))
+    rng.shuffle(out)
+    out = cover_first(out, lambda c: c[2]['default'], lambda c: c[2]['given'])
+    yield from out[:n]
